@@ -437,6 +437,10 @@ def check_C01(rep, fl):
     # ... and the TTL sweep releases the charge of exactly the entries it removes (a resident entry that lost its
     # charge lets later admissions overfill the cache)
     props_store.check_sweeper(rep, fl)
+    # ... and charges are wiped (policy.clear) on the processor only, between items: a reset from a client thread
+    # un-charges entries the processor has admitted meanwhile, and later admissions overfill the cache
+    import props_life as _pl
+    _pl.check_clear_affinity(rep, fl, rule="R01.9")
     # R01.9: the charge the policy released for a victim is matched by the entry leaving the store - otherwise the
     # resident entries add up to more than max_cost while `used` looks fine
     import props_life
@@ -1022,6 +1026,9 @@ def check_fill_sample(rep, fl, fs):
 
 def check_C07_all(rep, fl):
     check_C07(rep, fl)
+    # every charge is the outcome of an admission decision: only add() charges a key (R01.3)
+    import props_store as _ps
+    _ps.keep_rules(rep, fl, check_C01, {"R01.3"})
     # "when there is room" / "only while room is still lacking": room is max_cost - used - cost, with its sign
     check_room_left(rep, fl)
     # R07.7: what the policy decides is carried out - every victim leaves the store (and goes to on_evict), whether
